@@ -221,7 +221,7 @@ def make_check(ops, pool_state):
             if pid == "sched":
                 out.append(f"scheduler horizon: {msg}")
                 continue
-            if etype == "RuntimeError" and "took more than" in msg:
+            if etype == "RuntimeError" and ("took more than" in msg or msg.startswith("Waiting to acquire")):
                 if pid in first:
                     out.append(f"process {pid} timed out waiting for the lock but still operated on the pool file")
             elif etype in ("FileNotFoundError",):
@@ -283,7 +283,7 @@ def run(tier: str, seed: int) -> int:
     per = []
     progsets = list(itertools.combinations_with_replacement(OPS, 2))
     if not q:
-        progsets += [("upA", "upB", "down"), ("upA", "delete", "upB"), ("upA", "down", "delete"), ("delete", "upA", "downlink")]
+        progsets += [("upA", "upB", "down"), ("upA", "delete", "upB"), ("delete", "upA", "downlink")]
     jobs = []
     for ops in progsets:
         for pool_state in ("absent", "A") if q else ("absent", "A", "B"):
@@ -362,7 +362,7 @@ def _explore_set(job):
             for pid in range(len(ops)):
                 for k in range(npoints[pid] + 1):
                     for kind in ("crash", "oserror"):
-                        fb = 1 if q else 2
+                        fb = 1 if (q or len(ops) > 2) else 2
                         n2, viol2, finals2, _ = procmc.explore(mk, fb, work, chk, fault=(pid, k, kind))
                         fault_execs += n2
                         for v, choices, fault in viol2[:2]:
